@@ -31,6 +31,14 @@ Theorem dist_zero_iff_digest_eq : forall H a b,
   distance H a b = 0 <-> H (as_bytes a) = H (as_bytes b).
 Proof. exact dist_zero_iff_lemma. Qed.
 
+(* "zero only for equal addresses": equal address bytes, or else a collision of the digest *)
+Theorem dist_zero_equal_or_collision : forall H a b, distance H a b = 0 ->
+  as_bytes a = as_bytes b \/ (as_bytes a <> as_bytes b /\ H (as_bytes a) = H (as_bytes b)).
+Proof. exact dist_zero_equal_or_collision. Qed.
+
+Theorem dist_zero_of_equal_bytes : forall H a b, as_bytes a = as_bytes b -> distance H a b = 0.
+Proof. exact dist_zero_of_equal_bytes. Qed.
+
 Theorem dist_bound : forall H, (forall x, H x < 2 ^ 256) -> forall a b, distance H a b < 2 ^ 256.
 Proof. exact dist_bound_lemma. Qed.
 
@@ -65,6 +73,13 @@ Theorem sort_prefix : forall H peers kd n l, sort_peers_by_key H peers kd n = So
 Proof.
   intros H peers kd n l E. split; [exact (sort_length_lemma H peers kd n l E)|exact (sort_prefix_lemma H peers kd n l E)].
 Qed.
+
+Theorem sort_returns_n_nearest : forall H peers kd n,
+  CLOSE_GROUP_SIZE <= N.of_nat (List.length peers) -> n <= N.of_nat (List.length peers) ->
+  exists l rest, sort_peers_by_key H peers kd n = SortOk l /\ N.of_nat (List.length l) = n /\
+    sorted_by (key_peer_distance H kd) l /\ Permutation (l ++ rest) peers /\
+    forall x y, In x l -> In y rest -> key_peer_distance H kd x <= key_peer_distance H kd y.
+Proof. exact sort_returns_n_nearest. Qed.
 
 Theorem sort_by_address_is_by_key : forall H peers a n,
   sort_peers_by_address H peers a n = sort_peers_by_key H peers (H (as_bytes a)) n.
